@@ -92,10 +92,14 @@ def gen_churn(seed, tier):
 
 
 def accept(v, spec, hist):
-    """Narrow relaxation (DESIGN 4.5): while an `error` warning filter installed by the admin task may be in force, an
-    operation may fail with the RuntimeWarning the library itself issues."""
+    """Narrow relaxation (DESIGN 4.5): an operation that ran WHILE the user (admin task) was changing the warnings filter
+    may or may not fail with the RuntimeWarning the library itself issues.  Outside such overlaps the solo oracle runs
+    under the user's setting and the results must agree."""
     if v["sig"].get("invariant") == "O1.digest" and "RuntimeWarning" in v["detail"]:
-        return any(op.get("op") == "warn_filter" and op.get("action") == "error" for p in spec["programs"] for op in p)
+        try:
+            return bool(hist["filter_unstable"][v["task"]][v["op_index"]])   # only while the user was changing it
+        except Exception:  # noqa
+            return False
     return False
 
 
